@@ -2,6 +2,7 @@ use crate::run::Suite;
 use std::path::Path;
 
 pub mod c09;
+pub mod c12;
 pub mod c21;
 pub mod c26;
 
@@ -10,6 +11,10 @@ pub fn for_property(p: &str) -> Vec<Suite> {
         "C09" => c09::suites(),
         "C21" => c21::suites(),
         "C26" => c26::suites(),
+        "C12" => c12::suites_c12(),
+        "C13" => c12::suites_c13(),
+        "C14" => c12::suites_c14(),
+        "C15" => c12::suites_c15(),
         _ => vec![],
     }
 }
